@@ -33,7 +33,11 @@ def bufName : Buf → String
   | .blockOut => "blockOut" | .fragBlock => "fragBlock" | .dataBlock => "dataBlock" | .fragOut => "fragOut"
   | .streamBuf => "streamBuf" | .inoData => "inoData" | .table => "table" | .locations => "locations"
   | .inodeExtra => "inodeExtra" | .dirEntName => "dirEntName" | .idxSrc => "idxSrc" | .idxOut => "idxOut"
-  | .path => "path"
+  | .path => "path" | .superBuf => "superBuf" | .idTable => "idTable" | .fragTable => "fragTable"
+  | .xattrIdTbl => "xattrIdTbl" | .idBlockStarts => "idBlockStarts" | .xattrDesc => "xattrDesc"
+  | .xattrKeyHdr => "xattrKeyHdr" | .xattrValHdr => "xattrValHdr" | .xattrRef => "xattrRef"
+  | .xattrKeyOut => "xattrKeyOut" | .xattrValOut => "xattrValOut" | .xattrKv => "xattrKv"
+  | .dirEntryOut => "dirEntryOut" | .nameIn => "nameIn" | .linkOut => "linkOut"
 
 def unsafeTag (acc : List Access) : String :=
   match acc.find? (fun a => !(decide a.inBounds)) with
